@@ -48,6 +48,10 @@ type InFlight struct {
 type Ann struct {
 	S  int       `json:"s"` // 1..3
 	ID gen.ID128 `json:"id"`
+	// Gone: not an announcement - at this point of the schedule the client of a further
+	// session, which has only negotiated its parameters, goes away (its context is cancelled);
+	// it is followed until its RPC has ended or its handler is parked on a lock
+	Gone bool `json:"gone,omitempty"`
 }
 
 // RunInFlight executes the schedule; P is the property prefix of the signatures.
@@ -68,11 +72,30 @@ func RunInFlight(f *InFlight, P string) *ev.Verdict {
 	}
 	s := drive.NewSrv(true, hgen.NIs[1:], server.WithPostChangeRIBHook(hook))
 	nsess := 1
+	ngone := 0
 	for _, a := range f.Ann {
+		if a.Gone {
+			ngone++
+			continue
+		}
 		if a.S+1 > nsess {
 			nsess = a.S + 1
 		}
 	}
+	var ys []*drive.Session // sessions whose clients go away during the schedule
+	for i := 0; i < ngone; i++ {
+		y := s.Open()
+		y.Send(drive.StdParams(false))
+		if rs, ended, hg := y.Barrier(); hg != nil || ended || len(rs) != 1 {
+			l2.HangFinding(v, P, hg)
+			if hg == nil {
+				v.Fail(P+"/setup", "bystander %d: parameters not accepted: %v %v", i, y.Err(), rs)
+			}
+			return v
+		}
+		ys = append(ys, y)
+	}
+	goneNext := 0
 	xs := make([]*drive.Session, nsess)
 	last := make([]*gen.ID128, nsess)
 	fail := func(sig, format string, a ...any) { v.Fail(P+"/"+sig, format, a...) }
@@ -85,6 +108,11 @@ func RunInFlight(f *InFlight, P string) *ev.Verdict {
 		for _, x := range xs {
 			if x != nil {
 				x.Close()
+			}
+		}
+		for _, y := range ys {
+			if !y.Ended() {
+				y.Cancel()
 			}
 		}
 	}()
@@ -134,6 +162,25 @@ func RunInFlight(f *InFlight, P string) *ev.Verdict {
 	parkedSess := map[int]bool{}
 	var sentAnn []Ann
 	for ai, a := range f.Ann {
+		if a.Gone {
+			y := ys[goneNext]
+			goneNext++
+			y.Cancel()
+			deadline := time.Now().Add(drive.Watchdog)
+			for !y.Ended() {
+				if where := y.ParkedOnLock(); where != "" {
+					v.Class("disconnect-waits:" + where)
+					break
+				}
+				if time.Now().After(deadline) {
+					v.Inconclusive = fmt.Sprintf("disconnect %d: the RPC neither ended nor is its handler parked on a lock", ai)
+					return v
+				}
+				runtime.Gosched()
+			}
+			v.Class("client-goes-away-while-an-operation-is-in-flight")
+			continue
+		}
 		x := xs[a.S]
 		if x.Ended() || parkedSess[a.S] {
 			// a session whose announcement waits cannot be sent anything more before the release
@@ -170,7 +217,14 @@ func RunInFlight(f *InFlight, P string) *ev.Verdict {
 	}
 	close(release)
 
-	// quiescence: every session answers a barrier
+	// quiescence: the RPCs of the clients that went away have ended, every other session answers a barrier
+	for i, y := range ys {
+		if _, _, hg := y.WaitEnd(); hg != nil {
+			l2.HangFinding(v, P, hg)
+			return v
+		}
+		_ = i
+	}
 	for i, x := range xs {
 		if x.Ended() {
 			fail("session-ended", "session %d ended with %v", i, x.Err())
@@ -315,6 +369,9 @@ func DrawInFlight(rt *rapid.T) *InFlight {
 	for n := rapid.IntRange(1, 5).Draw(rt, "nann"); n > 0; n-- {
 		id := gen.ID128{Hi: uint64(rapid.IntRange(0, 2).Draw(rt, "ahi")), Lo: uint64(rapid.IntRange(1, 8).Draw(rt, "alo"))}
 		f.Ann = append(f.Ann, Ann{S: rapid.IntRange(1, 3).Draw(rt, "s"), ID: id})
+		if rapid.IntRange(0, 4).Draw(rt, "gone?") == 0 {
+			f.Ann = append(f.Ann, Ann{Gone: true})
+		}
 	}
 	return f
 }
